@@ -22,7 +22,12 @@ import (
 // ---------- one PRNG (splitmix64) ----------
 type rng struct{ s uint64 }
 
-func newRng(seed uint64) *rng { return &rng{s: seed*0x9E3779B97F4A7C15 + 0x1234567} }
+func newRng(seed uint64) *rng {
+	// the seed is hashed first: with a plain linear seed the stream of seed n+1 is the stream of seed n shifted by one draw
+	r := &rng{s: seed*0x9E3779B97F4A7C15 + 0x1234567}
+	r.s = r.next() ^ (seed << 32)
+	return r
+}
 func (r *rng) next() uint64 {
 	r.s += 0x9E3779B97F4A7C15
 	z := r.s
@@ -521,4 +526,23 @@ func msgClass(m string) string {
 		sb.WriteByte(ch)
 	}
 	return sb.String()
+}
+
+// Record registers one case that was run by a property-specific runner (not through Ctx.do): the case line for the
+// model, the implementation's canonical answer, the class label, and the key for the distinct-case count.
+func (c *Ctx) Record(line []byte, impl, cls string, inDomain bool, distinctKey, outClass string, sample any) {
+	c.cases.Write(line)
+	c.cases.WriteByte('\n')
+	c.impl.WriteString(impl)
+	c.impl.WriteByte('\n')
+	c.N++
+	if inDomain {
+		c.InDom++
+	}
+	c.Hist[cls]++
+	c.OutHist[outClass]++
+	c.Distinct[distinctKey+"|"+outClass] = struct{}{}
+	if sample != nil && len(c.Samples) < 12 && (c.N%97 == 1 || len(c.Samples) < 3) {
+		c.Samples = append(c.Samples, sample)
+	}
 }
